@@ -131,7 +131,12 @@ Proof.
   swap_with H1.
 Qed.
 
-Ltac step_with H := first [ swap_with H | (eapply enter_inv; [ | exact H]; reflexivity) ].
+Ltac enter_with H m o := (eapply (enter_inv _ _ _ m o); [ | exact H]; reflexivity).
+Ltac step_with H :=
+  first [ swap_with H | (eapply enter_inv; [ | exact H]; reflexivity)
+        | enter_with H MExcl OpUX | enter_with H MAppend OpUX | enter_with H MBusy OpUX
+        | enter_with H MExcl OpSA | enter_with H MAppend OpSP | enter_with H MShared OpUS
+        | enter_with H MShared OpSX | enter_with H MIdle OpLX | enter_with H MIdle OpLS ].
 
 Lemma lcont_inv : forall L l1 l2 a c m sp,
   Inv (mkState L (l1 ++ (Ready m, sp) :: l2)) -> res_inv L l1 l2 (lcont a c m).
@@ -157,17 +162,19 @@ Lemma astepA_inv : forall sh a p a' sh1 r evs l1 l2 sp,
   anchors sh1 = anchors sh /\ res_inv (lk a') l1 l2 r.
 Proof.
   intros sh a p a' sh1 r evs l1 l2 sp HI E.
-  destruct p as [c lp| | | | | | | | | | | | | | | | | | | | | | | | | | | | | | | | | | | | | | | | | | | | | ].
-  { (* inside a lock method *)
+  destruct p.
+  1: { (* inside a lock method *)
     cbn [astepA alock] in *.
     destruct (pstep (lk a) lp []) as [[[L' lp'] scr'] evs'] eqn:P.
-    pose proof (pstep_inv _ _ _ _ _ _ _ _ _ HI P) as HI'.
+    assert (HI0 : Inv (mkState (lk a) (l1 ++ (lp, []) :: l2))) by (swap_with HI).
+    pose proof (pstep_inv _ _ _ _ _ _ _ _ _ HI0 P) as HI'.
     destruct lp'; inversion E; subst; clear E; cbn [lk set_lk]; split; try reflexivity;
       try (cbn [res_inv alock]; swap_with HI').
     - eapply lcont_inv. exact HI'.
     - cbn [res_inv]. eapply inv_no_crashed. exact HI'. }
   all: cbn [alock amode] in HI;
     try match goal with b : bool |- _ => destruct b end;
+    try match goal with c : fcx |- _ => destruct c end;
     cbn [wmode_of keep] in HI;
     pose proof (inv_holder_facts _ _ _ _ _ HI) as (F1 & F2 & F3 & F4 & F5 & F6);
     cbn [wt wmode rl rd wl fw wr ap up xc rc] in F1, F2, F3, F4, F5, F6;
@@ -177,7 +184,6 @@ Proof.
     cbn [Z.eqb] in E;
     unfold fc_entry, fl_head, lk_head, callL in E;
     split_ifs_in E;
-    try match type of E with context [match ?c with FcOW _ => _ | _ => _ end] => destruct c end;
     try match type of E with context [match ?c with Some _ => _ | None => _ end] => destruct c end;
     split_ifs_in E;
     inversion E; subst; clear E;
